@@ -24,6 +24,7 @@ def configs(tier):
         for r in range(0, 4):
             for sub in itertools.combinations(KEYS, r):
                 out.append(dict(part="batch", kind=kind, batched=list(sub), B=B))
+        out.append(dict(part="batch", kind=kind, batched=["kappa", "mu"], B=B, flat=True))      # per-sample values given as 1-D arrays of shape (B,)
         out.append(dict(part="hetero", kind=kind, B=B))
         if kind != "statio":      # the ignored placeholder of a heterogeneous parameter is an INTEGER: the user function's (real) value is what the equation sees
             out.append(dict(part="hetero", kind=kind, B=B, intph=True))
@@ -176,6 +177,7 @@ def run(cfg, R):
         batched = cfg["batched"]
         u, params, loss, batch = _mk(kind, B, dk_both=True)
         pb = {k: (jnp.arange(1, B + 1).reshape(B, 1) * 0.3 + 0.1 * i) for i, k in enumerate(KEYS) if k in batched}
+        if cfg.get("flat"): pb = {k: v[:, 0] for k, v in pb.items()}
         batch = eqx.tree_at(lambda b: b.param_batch_dict, batch, pb if pb else None, is_leaf=lambda x: x is None)
         hetero = False
     else:
@@ -191,7 +193,7 @@ def run(cfg, R):
         if cfg.get("intph"):
             params = eqx.tree_at(lambda p: p.eq_params["kappa"], params, jnp.array(1, dtype=jnp.int32))
         hetero = True
-    name = f"{part}/{kind}/{'+'.join(batched) if batched else 'none'}" + ("/int-placeholder" if cfg.get("intph") else "")
+    name = f"{part}/{kind}/{'+'.join(batched) if batched else 'none'}" + ("/int-placeholder" if cfg.get("intph") else "") + ("/1-D-rows" if cfg.get("flat") else "")
     key = f"{part}:{kind}"
     R.note(functions=["jinns.parameters._params._update_eq_params_dict", "_get_vmap_in_axes_params", "jinns.loss._DynamicLossAbstract._decorator_heteregeneous_params",
                       "DynamicLoss._eval_heterogeneous_parameters", "jinns.loss.%s.evaluate" % {"ode": "LossODE", "statio": "LossPDEStatio", "nonstatio": "LossPDENonStatio"}[kind],
@@ -204,7 +206,7 @@ def run(cfg, R):
         for i in range(B):
             pi = p
             for k in batched:
-                pi = eqx.tree_at(lambda q, k=k: q.eq_params[k], pi, batch.param_batch_dict[k][i, 0])
+                pi = eqx.tree_at(lambda q, k=k: q.eq_params[k], pi, batch.param_batch_dict[k][i] if batch.param_batch_dict[k].ndim == 1 else batch.param_batch_dict[k][i, 0])
             bi = eqx.tree_at(lambda b: (getattr(b, bfield), b.param_batch_dict, b.obs_batch_dict), batch,
                              (getattr(batch, bfield)[i:i + 1], None, None), is_leaf=lambda x: x is None)
             tot = tot + loss.evaluate(pi, bi)[1]["dyn_loss"]
@@ -225,7 +227,8 @@ def run(cfg, R):
     def val(A, k, i, shift=0):
         loss_, p, b_ = A
         if k in batched:
-            return b_.param_batch_dict[k][(i + shift) % B, 0]
+            a_ = b_.param_batch_dict[k]
+            return a_[(i + shift) % B] if a_.ndim == 1 else a_[(i + shift) % B, 0]
         return p.eq_params[k][()]
 
     def oracle(A, shift=0, het_everywhere=False):
